@@ -120,7 +120,11 @@ def _dqn_common(name, sc, mod, train, extra_kwargs, uses_target, per=False, has_
     def greedy(q, obs):
         a = real_greedy(q, obs)
         qv = np.asarray(q(np.asarray([obs], dtype=np.float32)))[0]
-        rec.emit("policy", obs=decode_obs(obs), chosen=int(a), argmax=[int(i) for i in np.flatnonzero(qv == qv.max())])
+        from .digests import module_digest
+
+        # "current estimate": the network evaluated must be (content-equal to) the routine's live online network
+        cur = (q is q_net) or module_digest(q) == module_digest(q_net)
+        rec.emit("policy", obs=decode_obs(obs), chosen=int(a), argmax=[int(i) for i in np.flatnonzero(qv == qv.max())], current=bool(cur))
         return a
 
     eps = sc.get("epsilon")  # None: the routine's own schedule; else constant schedule
